@@ -4,3 +4,4 @@ pub mod stats;
 pub mod disk;
 pub mod pool;
 pub mod chan;
+pub mod mem;
